@@ -184,6 +184,10 @@ def join_component_view(component, view):
     """
     if view is None:
         return component
+    # NOTE: a single array (e.g. a boolean mask or an array of indices) is one
+    # view and not a sequence of per-axis views, so we should not unpack it
+    if isinstance(view, np.ndarray):
+        return (component, view)
     result = [component]
     try:
         result.extend(view)
